@@ -328,8 +328,8 @@ func main() {
 		if e.Executions > 1 {
 			rep.Count("trees_with_more_than_one_schedule", 1)
 		}
-		if int64(e.MaxPoints) > rep.Counters["max_points_in_one_schedule"] {
-			rep.Counters["max_points_in_one_schedule"] = int64(e.MaxPoints)
+		if mp, _ := rep.Extra["max_points_in_one_schedule"].(int); e.MaxPoints > mp {
+			rep.Extra["max_points_in_one_schedule"] = e.MaxPoints
 		}
 		if e.Executions > 20 {
 			js, _ := json.Marshal(root)
